@@ -170,6 +170,27 @@ def run(ctx):
                             written.add(fmt(ir.unwrap(lv)))
             ctx.check(bool(written) and fmt(ir.unwrap(rr)) in written, "R05.4", g, "threshold-is-configured-value",
                       "min_severity() returns %s, set_severity() writes %s: the threshold that is compared is not the one that is configured" % (fmt(rr), sorted(written)), g, why_ok=fmt(rr))
+    # one threshold per (record type, index): the storage that set_severity() writes is a different object for filters that differ
+    # in either template argument (checked on three instantiations of the witness unit)
+    wf = [g for g in prog.find("vwit::thresholds_are_independent") if g.has_cfg]
+    if ctx.anchor("R05.4", "vwit::thresholds_are_independent", bool(wf)):
+        keys = []
+        for _, _, e in wf[0].roots():
+            for n0 in elem_calls(e):
+                if short(n0.get("name") or "") == "set_severity" and n0.get("callee"):
+                    cal = prog.fn(n0["callee"])
+                    keys.append((n0["callee"], frozenset(_storage_written(prog, cal, 0)) if cal is not None else frozenset()))
+        ctx.need("R05.4", "set_severity instantiations in the witness", len(keys), 3)
+        ok_all = len(keys) == 3 and all(k[1] for k in keys)
+        clash = []
+        for i in range(len(keys)):
+            for j in range(i + 1, len(keys)):
+                if keys[i][1] & keys[j][1]:
+                    clash.append((i, j, sorted(keys[i][1] & keys[j][1])))
+        ctx.check(ok_all and not clash, "R05.4", "nitro::log::filter::severity_filter", "threshold-per-record-and-index",
+                  "two severity_filter specialisations that differ in the record type or in the index write the same threshold object %s: configuring one filter silently re-configures the other "
+                  "(band-pass expressions over two indices, two loggers with different records)" % ([c[2] for c in clash] or "(no static storage found)"), "-",
+                  why_ok="three distinct objects")
     f = filt("null_filter")
     if ctx.anchor("R05.4", "nitro::log::filter::null_filter::filter", f is not None):
         r = ret_expr(f)
@@ -255,6 +276,25 @@ def run(ctx):
         ok = len(calls) == 1 and [fmt(ir.unwrap(a)) for a in calls[0].get("args", [])] == pnames
         ctx.check(ok, "R05.6", f, "forwards-both-parameters-unchanged", "a member sink receives %s" % [[fmt(a) for a in c.get("args", [])] for c in calls], f)
 
+    # ---- R05.9: what a record carries from the statement to the sink is owned by the record (a named stream object is
+    # formatted when it dies - views into the caller's temporaries are dead by then)
+    ctx.rule("R05.9", "record attributes own their data: no pointer / reference / string view members in the attribute classes")
+    nattr = 0
+    for cname, c in sorted(prog.classes.items()):
+        if "/nitro/log/attribute/" not in (c.get("file") or "") or c.get("template") and not c.get("pattern") and False:
+            continue
+        if c.get("template") and not c.get("pattern"):
+            continue  # specialisations repeat their pattern
+        for fl in c.get("fields", []):
+            if fl.get("static"):
+                continue
+            nattr += 1
+            t = fl.get("type") or ""
+            view = fl.get("ptr") or fl.get("ref") or re.search(r"string_ref|string_view|reference_wrapper|\bspan<|const char \*", t) is not None
+            ctx.check(not view, "R05.9", cname, "attribute-owns:" + fl["name"],
+                      "%s::%s has the non-owning type `%s`: the record keeps a view of what the statement passed in; with a named stream object the referenced temporary is gone when the record is "
+                      "formatted, so the delivered attribute is garbage" % (short(cname), fl["name"], t), "%s:%d" % (c["file"], c["line"]), why_ok=t)
+    ctx.need("R05.9", "data members of attribute classes", nattr, 3)
     # ---- R05.8
     bad = 0
     scanned = 0
@@ -297,3 +337,41 @@ def run(ctx):
     ctx.assume("equality of the delivered text with the concatenation for all streamed types relies on the library's operator<< (not decided)")
     ctx.assume("behaviour of user-supplied sinks / formatters / filters is outside the claim")
     ctx.trust("elements of a braced init-list are evaluated left to right (Appendix D.5)")
+
+
+def _storage_written(prog, f, depth):
+    """keys of static-storage objects that f assigns: directly, through a reference returned by a callee (function-local
+    static behind an accessor), or inside a callee"""
+    from sa.callgraph import lvalue_root
+    out = set()
+    if f is None or not f.has_cfg or depth > 3:
+        return out
+
+    def returned_statics(g, d):
+        r = set()
+        if g is None or not g.has_cfg or d > 3:
+            return r
+        for _, _, e in g.roots():
+            x = e["expr"]
+            if x.get("k") == "return" and x.get("e") is not None:
+                t = ir.unwrap(x["e"])
+                if isinstance(t, dict) and t.get("k") == "ref" and (t.get("storage") in ("static_local", "static_member", "namespace") or t.get("decl", "").split(":")[0] in ("static", "global")):
+                    r.add(g.id + "|" + t["decl"])
+                elif isinstance(t, dict) and t.get("k") == "call" and t.get("callee"):
+                    r |= returned_statics(prog.fn(t["callee"]), d + 1)
+        return r
+
+    for _, _, e in f.roots():
+        for eff, lv, n in tree_effects(e["expr"]):
+            if eff in ("write", "maybe_write") and lv is not None:
+                t = ir.unwrap(lv)
+                if isinstance(t, dict) and t.get("k") == "ref" and (t.get("storage") in ("static_local", "static_member", "namespace") or t.get("decl", "").split(":")[0] in ("static", "global")):
+                    out.add((f.id + "|" if t.get("storage") == "static_local" else "") + t["decl"])
+                elif isinstance(t, dict) and t.get("k") == "call" and t.get("callee"):
+                    out |= returned_statics(prog.fn(t["callee"]), depth + 1)
+        for n in elem_calls(e):
+            if n.get("callee") and short(n.get("name") or "") not in ("operator=",):
+                g = prog.fn(n["callee"])
+                if g is not None and g.has_cfg and g.file.startswith("/repo/") and g.id != f.id:
+                    out |= _storage_written(prog, g, depth + 1)
+    return out
